@@ -457,7 +457,8 @@ def stack_cases(ctx, exe, d):
         ctx.violation("stack-copy:crash", input=reqs_c[min(len(co), len(reqs_c)) - 1], expected="an answer", observed="harness died rc=%s" % r.returncode,
                       replay="echo '%s' | LD_LIBRARY_PATH=%s %s" % (reqs_c[min(len(co), len(reqs_c)) - 1], d, emb))
         return
-    for q, c, m, (kind, st, x) in zip(reqs_c, co, mo, meta):
+    order = sorted(range(len(reqs_c)), key=lambda j: len(reqs_c[j]))         # report the smallest failing request first
+    for q, c, m, (kind, st, x) in [(reqs_c[j], co[j], mo[j], meta[j]) for j in order]:
         ctx.count(1, key=("stack", q), nontrivial=bool(st) and bool(x))
         ctx.cov["traces_validated_against_impl"] += 1
         if kind == "save":
